@@ -111,7 +111,13 @@ def template_graph(tpl):
 
 def match_copy(mol, nodes, tpl, sym_attr, atom_ok):
     """Is the subgraph on `nodes` isomorphic to the template (symbols, bond orders) by a mapping under which
-    `atom_ok(node, template descriptors of its image)` holds everywhere?  -> 'ok' | 'no-iso' | 'accounting'"""
+    `atom_ok(node, template descriptors of its image)` holds everywhere?
+
+    Aromatic template bonds (order 1.5) may come back in aromatic or in Kekule form (pysmiles decides that, it is
+    not CGsmiles' choice): such an edge matches order 1, 1.5 or 2, and every atom on aromatic template bonds
+    must keep a ring bond-order sum of 3 (1.5 + 1.5 or 1 + 2) — a ring that lost a double bond is a different molecule.
+
+    -> 'ok' | 'no-iso' | 'dearomatised' | 'accounting'"""
     sub = mol.subgraph(nodes)
     tg = template_graph(tpl)
     if sub.number_of_nodes() != tg.number_of_nodes() or sub.number_of_edges() != tg.number_of_edges():
@@ -122,14 +128,33 @@ def match_copy(mol, nodes, tpl, sym_attr, atom_ok):
 
     def em(a, b):
         o = a.get('order')
-        return isinstance(o, (int, float)) and abs(o - b['order']) < 1e-9
+        if not isinstance(o, (int, float)):
+            return False
+        if b['order'] == 1.5:
+            return o in (1, 1.5, 2)
+        return abs(o - b['order']) < 1e-9
+    arom_edges = [(i, j) for i, j, o in tpl['bonds'] if o == 1.5]
     gm = iso.GraphMatcher(sub, tg, node_match=nm, edge_match=em)
-    found = False
+    best = 'no-iso'
+    rank = {'no-iso': 0, 'dearomatised': 1, 'accounting': 2}
     for mapping in gm.isomorphisms_iter():
-        found = True
-        if all(atom_ok(n, tpl['desc'][t]) for n, t in mapping.items()):
+        res = 'ok'
+        if arom_edges:
+            inv = {t: n for n, t in mapping.items()}
+            ring_sum = defaultdict(float)
+            for i, j in arom_edges:
+                o = sub.edges[inv[i], inv[j]]['order']
+                ring_sum[i] += o
+                ring_sum[j] += o
+            if any(abs(v - 3) > 1e-9 for v in ring_sum.values()):
+                res = 'dearomatised'
+        if res == 'ok' and not all(atom_ok(n, tpl['desc'][t]) for n, t in mapping.items()):
+            res = 'accounting'
+        if res == 'ok':
             return 'ok'
-    return 'accounting' if found else 'no-iso'
+        if rank[res] > rank[best]:
+            best = res
+    return best
 
 
 def sub_multiset(a, b):
